@@ -498,6 +498,11 @@ func (d *driver) writeEvidence(violations int, knownHit []string, counts map[str
 		"distinct_states":          len(states),
 		"simulated_ticks":          stats["ticks"],
 		"runs_per_hour":            int64(float64(evals) / wall * 3600),
+		"seeds_per_hour":           int64(float64(evals) / wall * 3600),
+		"seed_note":                "every case has its own PRNG stream derived from (VERIF_SEED, case number); one case = one simulated run = one replayable seed",
+		"simulated_time_unit":      "ticks (function entries and loop iterations of instrumented gmars code) and scheduler steps",
+		"scheduler_steps":          stats["sched.steps"],
+		"distinct_measure":         "distinct_schedules = distinct (task,site,kind) decision traces; distinct_states = distinct (core, queues, cycle) snapshots after API calls (battle engines); lower bounds once a worker's set reaches 400000",
 		"workers":                  d.workers,
 		"real_components":          d.spec.Real,
 		"stub_components":          d.spec.Stubs,
